@@ -2963,10 +2963,11 @@ pub fn matrix_column_elements(&mut self, column_elements: &[&MatrixColumn]) -> S
         for (i, (ident, kind)) in kinds.iter().enumerate() {
           let k = self.kind(kind);
           let ident_s = ident.to_string();
+          let (lt, gt) = if self.html { ("&lt;", "&gt;") } else { ("<", ">") };
           if i == 0 {
-            src = format!("{}&lt;{}&gt;", ident_s, k);
+            src = format!("{}{}{}{}", ident_s, lt, k, gt);
           } else {
-            src = format!("{},{}&lt;{}&gt;", src, ident_s, k);
+            src = format!("{},{}{}{}{}", src, ident_s, lt, k, gt);
           }
         }
         format!("{{{}}}", src)
@@ -2976,10 +2977,11 @@ pub fn matrix_column_elements(&mut self, column_elements: &[&MatrixColumn]) -> S
         for (i, (ident,kind)) in kinds.iter().enumerate() {
           let k = self.kind(kind);
           let ident_s = ident.to_string();
+          let (lt, gt) = if self.html { ("&lt;", "&gt;") } else { ("<", ">") };
           if i == 0 {
-            src = format!("{}&lt;{}&gt;", ident_s, k);
+            src = format!("{}{}{}{}", ident_s, lt, k, gt);
           } else {
-            src = format!("{},{}&lt;{}&gt;", src, ident_s, k);
+            src = format!("{},{}{}{}{}", src, ident_s, lt, k, gt);
           }
         }
         let mut src2 = "".to_string();
